@@ -57,8 +57,13 @@ fn doc_of(src: &Sources) -> Result<Value, String> {
 }
 
 /// Applies a rewrite sequence to `p`, checking every intermediate program against the original document.
-fn check_sequence(p0: &Program, targets_valid: bool, rng: &mut Rng, st: &mut Stats) -> Vec<Violation> {
-    let src0 = sources_of(&print_program(p0));
+/// `tight`: the original is printed with as few blanks as the lexer allows (`/items/`, `wrap@item`, `f(x)`), so that
+/// every rewritten program, printed with blanks or trivia between all tokens, is also a whitespace rewrite of it.
+fn check_sequence(p0: &Program, targets_valid: bool, tight: bool, rng: &mut Rng, st: &mut Stats) -> Vec<Violation> {
+    let src0 = sources_of(&if tight { crate::gen::print::print_program_tight(p0) } else { print_program(p0) });
+    if tight {
+        st.inc("originals_printed_tight");
+    }
     let Ok(doc0) = doc_of(&src0) else {
         st.inc("original_not_accepted_skipped");
         return vec![];
@@ -132,8 +137,8 @@ impl Workload for Rewrites {
         let Some((p, valid)) = case_program(seed, idx, st) else { return vec![] };
         let mut rng = Rng::for_case(seed, "c05seq", idx);
         let mut out = Vec::new();
-        for _ in 0..3 {
-            out.extend(check_sequence(&p, valid, &mut rng, st));
+        for k in 0..3 {
+            out.extend(check_sequence(&p, valid, k == 2, &mut rng, st));
             if !out.is_empty() {
                 break;
             }
